@@ -31,25 +31,33 @@ template <class M> struct MakeMap<M, 3> { // padded: extents [+ run-time padding
   }
 };
 
-// inst ity layout pv R pat*R ctor e*R [s*R | dpv] nidx (idx*R)*nidx      (tokens after the family tag)
-template <class M, int LAY> void run_map(long caseno, Toks &tk) {
+// mapping value tokens:  ity layout pv R pat*R ctor e*R [s*R | dpv]
+template <class M, int LAY> M read_mapping(Toks &tk) {
   using T = typename M::index_type;
   using E = typename M::extents_type;
   constexpr size_t R = E::rank();
-  tk.next(); tk.next(); long lay = tk.next_l(); tk.next(); long r = tk.next_l();
-  if ((size_t)r != R) { std::printf("M %ld rank-mismatch\n", caseno); return; }
+  tk.next(); long lay = tk.next_l(); tk.next(); long r = tk.next_l();
+  if ((size_t)r != R) { std::printf("rank-mismatch\n"); std::exit(3); }
   for (size_t k = 0; k < R; ++k) tk.next();
   int ctor = (int)tk.next_l();
   std::array<T, R> ev{}; for (size_t k = 0; k < R; ++k) ev[k] = static_cast<T>(tk.next_i());
   std::array<T, R> sv{};
   if (lay == 2) for (size_t k = 0; k < R; ++k) sv[k] = static_cast<T>(tk.next_i());
   i128 dpv = 0; if (ctor == 2) dpv = tk.next_i();
-  long nidx = tk.next_l();
-  std::printf("M %ld ", caseno); std::fflush(stdout);   // case id first: a sanitizer trap is attributed
-
   E e(ev);
   constexpr int MK = (LAY == 0 || LAY == 1) ? 0 : (LAY == 2 ? 2 : 3);
-  const M m = MakeMap<M, MK>::make(e, sv, dpv, ctor);
+  return MakeMap<M, MK>::make(e, sv, dpv, ctor);
+}
+
+// inst <mapping value tokens> nidx (idx*R)*nidx      (tokens after the family tag)
+template <class M, int LAY> void run_map(long caseno, Toks &tk) {
+  using T = typename M::index_type;
+  using E = typename M::extents_type;
+  constexpr size_t R = E::rank();
+  tk.next();
+  std::printf("M %ld ", caseno); std::fflush(stdout);   // case id first: a sanitizer trap is attributed
+  const M m = read_mapping<M, LAY>(tk);
+  long nidx = tk.next_l();
 
   Out o;
   { std::vector<i128> v; for (size_t k = 0; k < R; ++k) v.push_back(to_i128(m.extents().extent(k))); o.field("ext", Out::list(v)); }
